@@ -50,6 +50,7 @@ class Scope(BaseScope):
         self.top = top
         self.locals = set()   # type: set[str]
         self.globals = set()  # type: set[str]
+        self.nonlocals = set()  # type: set[str]
 
     @property
     def filename(self):
@@ -91,6 +92,10 @@ class Flow(object):
         if name.name in self.scope.globals:
             name.scope = self.scope.top
             self.scope.top.add_global(name)
+        elif name.name in self.scope.nonlocals:
+            # the variable lives in an enclosing function: it must not
+            # mask the outer bindings as a local of this scope would
+            name.scope = self.scope.parent
         else:
             self.scope.locals.add(name.name)
             insert_loc(self._names, name)
